@@ -113,11 +113,95 @@ func receiverRootedWrites(fn *ssa.Function) []ssa.Instruction {
 					if bi, ok := x.Common().Value.(*ssa.Builtin); ok && bi.Name() == "delete" && rooted(x.Common().Args[0]) {
 						out = append(out, in)
 					}
+					if bi, ok := x.Common().Value.(*ssa.Builtin); ok && bi.Name() == "copy" && rooted(x.Common().Args[0]) {
+						out = append(out, in)
+					}
+					// library functions that write through the slice they are given: sorting a list that belongs to the
+					// receiver in place is a write to the receiver (round-6 seed C09/k: Equals sorted the blueprint's index lists)
+					// a helper of the module that writes through the parameter it is handed (one level)
+					if callee := x.Common().StaticCallee(); callee != nil && callee.Blocks != nil && fnInModule(callee) {
+						for i, a := range x.Common().Args {
+							if i < len(callee.Params) && rooted(a) && paramWrittenThrough(callee, callee.Params[i]) {
+								out = append(out, in)
+							}
+						}
+					}
+					if mutatingLibraryCall(x) && len(x.Common().Args) > 0 {
+						a := x.Common().Args[0]
+						if mi, isMI := a.(*ssa.MakeInterface); isMI {
+							a = mi.X
+						}
+						if rooted(a) {
+							out = append(out, in)
+						}
+					}
 				}
 			}
 		}
 	}
 	return out
+}
+
+// mutatingLibraryCall: a library function that writes through its first argument (sorting, shuffling in place).
+func mutatingLibraryCall(ci ssa.CallInstruction) bool {
+	callee := ci.Common().StaticCallee()
+	if callee == nil {
+		return false
+	}
+	pk := ""
+	if callee.Pkg != nil {
+		pk = callee.Pkg.Pkg.Path()
+	} else if o := callee.Origin(); o != nil && o.Pkg != nil {
+		pk = o.Pkg.Pkg.Path() // an instance of a generic library function
+	}
+	name := callee.Name()
+	if i := strings.Index(name, "["); i > 0 {
+		name = name[:i]
+	}
+	switch pk + "." + name {
+	case "sort.Slice", "sort.SliceStable", "sort.Sort", "sort.Stable", "sort.Strings", "sort.Ints", "sort.Float64s", "slices.Sort", "slices.SortFunc", "slices.SortStableFunc", "slices.Reverse", "math/rand.Shuffle":
+		return true
+	}
+	return false
+}
+
+// paramWrittenThrough: fn stores through prm (an element, a field, a map entry) or hands it to a library function that does.
+func paramWrittenThrough(fn *ssa.Function, prm *ssa.Parameter) bool {
+	from := func(v ssa.Value) bool {
+		found := false
+		backSlice(v, func(x ssa.Value) bool {
+			if x == ssa.Value(prm) {
+				found = true
+			}
+			return !found
+		})
+		return found
+	}
+	for _, b := range fn.Blocks {
+		for _, in := range b.Instrs {
+			switch x := in.(type) {
+			case *ssa.Store:
+				if _, isAlloc := x.Addr.(*ssa.Alloc); !isAlloc && from(x.Addr) {
+					return true
+				}
+			case *ssa.MapUpdate:
+				if from(x.Map) {
+					return true
+				}
+			case ssa.CallInstruction:
+				if mutatingLibraryCall(x) && len(x.Common().Args) > 0 {
+					a := x.Common().Args[0]
+					if mi, isMI := a.(*ssa.MakeInterface); isMI {
+						a = mi.X
+					}
+					if from(a) {
+						return true
+					}
+				}
+			}
+		}
+	}
+	return false
 }
 
 // globalWrites lists instructions of fn that write package-level variables (directly, through their fields/elements,
